@@ -84,7 +84,7 @@ CHECKS = {
  ),
  "C19": dict(
   text=("Full proof: toAbsolute_eq_posix (for every plain directory and every path of any length the model of _query_to_absolute equals "
-        "POSIX normalisation with root-escape rejected), idempotence, composition of two resolutions (toAbsolute_compose), independence of the directory for non-relative paths, plain and length-bounded results, and the frame theorems of Query.to_absolute. The model is tied to the "
+        "POSIX normalisation with root-escape rejected), idempotence, composition of two resolutions (toAbsolute_compose), independence of the directory for non-relative paths, plain and length-bounded results, idempotence of Query.to_absolute (query_idem; also checked on the implementation for every generated query), and the frame theorems of Query.to_absolute. The model is tied to the "
         "code by exhaustive comparison over all directories of depth 0-4 x all paths of <= 5/6 components and generated query embeddings; "
         "the oracle is posixpath.normpath. The oracle also checks purity: to_absolute does not change the query object it is called on."),
   note=("Trusted: Lean kernel, the hand-written mirror LiquerModel/Paths.lean of ResourceQuerySegment._query_to_absolute/to_absolute and "
